@@ -74,6 +74,9 @@ def register(R, P):
         return SV(ev.eng.truth(s, ev.st), BOOL)
 
     R.macro("HELD", ["g"], HELD)
+    # single-model scope: every element recorded in a model's graph belongs to that model (the cross-model branch of the
+    # clearing loops -- a dependant living in another model is cleared through its own model -- is bounded only, C19 driver)
+    R.macro("OWN", ["m"], "all(implies(has_node(m.tracegraph, n), obj(n).model is m) for n in every('node'))")
     # INPUT-KEEP (DESIGN C06): a value assigned by the user was computed from nothing: its element has no in-edge
     R.macro("INPUT_BARE", ["g"], "all(implies(has_edge(g, a, b), key(b) not in obj(b).input_keys) for a in every('node') for b in every('node'))")
     R.macro("REFS_OK", ["g", "refs"], "all(has_node(g, refs[j]) and not is_nd(refs[j]) for j in range(len(refs)))"
@@ -209,7 +212,7 @@ def register2(R, P):
 
 def register3(R, P):
     # heap shape used by the clearing loops: one data dict / input-key set per cells, all distinct
-    PRE = ["GWF(self.tracegraph)", "RGWF(self.refgraph)", "HELD(self.tracegraph)", "SEP()",
+    PRE = ["GWF(self.tracegraph)", "RGWF(self.refgraph)", "HELD(self.tracegraph)", "OWN(self)", "SEP()",
            "all(c.data is not d.input_keys for c in every('CellsImpl') for d in every('CellsImpl'))"]
     # what every clearing function owes (C02 C06): with R = the removed set,
     #   nodes/edges of G shrink by exactly R; every item in R lost its datum and its input flag;
@@ -247,7 +250,7 @@ def register3(R, P):
 
 
 def register4(R, P):
-    PRE = ["GWF(self.model.tracegraph)", "RGWF(self.model.refgraph)", "HELD(self.model.tracegraph)", "SEP()",
+    PRE = ["GWF(self.model.tracegraph)", "RGWF(self.model.refgraph)", "HELD(self.model.tracegraph)", "OWN(self.model)", "SEP()",
            "all(c.data is not d.input_keys for c in every('CellsImpl') for d in every('CellsImpl'))"]
     MOD = ["content(self.model.tracegraph)", "content(self.model.refgraph)", "every_content('dict[key,val]')", "every_content('set[key]')"]
     DISCARD = ("all(implies(is_item(n), (key(n) in obj(n).data) == (old(key(n) in obj(n).data) and not (%s and n in old(reach(self.model.tracegraph, item(self, key))))))"
@@ -317,7 +320,7 @@ def register6(R, P):
     R.macro("SYSINV", ["s"], "s.executor.callstack is s.callstack and s.callstack.executor is s.executor"
                              " and all(c.system is s for c in every('NodeObj'))"
                              " and all(c.model.tracegraph is not c.model.refgraph for c in every('NodeObj'))")
-    PRE = ["GWF(self.model.tracegraph)", "RGWF(self.model.refgraph)", "HELD(self.model.tracegraph)", "SEP()",
+    PRE = ["GWF(self.model.tracegraph)", "RGWF(self.model.refgraph)", "HELD(self.model.tracegraph)", "OWN(self.model)", "SEP()",
            "all(c.data is not d.input_keys for c in every('CellsImpl') for d in every('CellsImpl'))",
            "all(implies(k in self.input_keys, k in self.data) for k in every('key'))"]
     EXEC_PRE = ["SYSINV(self.system)", "WF(self.system.callstack)",
@@ -415,7 +418,7 @@ def register6(R, P):
             "all(implies(k in self.input_keys, old(k in self.input_keys)) for k in every('key'))",
             "all(implies(j < _i and _s[j] in self.data, not clear_input and _s[j] in self.input_keys) for j in range(len(_s)))",
             "all(implies(k in self.data, old(k in self.data)) for k in every('key'))",
-            "HELD(self.model.tracegraph) and GWF(self.model.tracegraph) and RGWF(self.model.refgraph) and SEP()",
+            "HELD(self.model.tracegraph) and GWF(self.model.tracegraph) and RGWF(self.model.refgraph) and SEP() and OWN(self.model)",
             "all(c.data is not d.input_keys for c in every('CellsImpl') for d in every('CellsImpl'))",
             "all(implies(k in self.input_keys, k in self.data) for k in every('key'))",
             "INPUT_BARE(self.model.tracegraph)",
@@ -434,7 +437,7 @@ def register6(R, P):
 
 
 def register7(R, P):
-    PRE = ["GWF(self.tracegraph)", "RGWF(self.refgraph)", "HELD(self.tracegraph)", "SEP()",
+    PRE = ["GWF(self.tracegraph)", "RGWF(self.refgraph)", "HELD(self.tracegraph)", "OWN(self)", "SEP()",
            "all(c.data is not d.input_keys for c in every('CellsImpl') for d in every('CellsImpl'))"]
     MOD = ["content(self.tracegraph)", "content(self.refgraph)", "every_content('dict[key,val]')", "every_content('set[key]')"]
     GONE_INV = [
@@ -463,7 +466,7 @@ def register7(R, P):
 
 def register8(R, P):
     G = "self.tracegraph"
-    PRE = ["GWF(self.tracegraph)", "RGWF(self.refgraph)", "HELD(self.tracegraph)", "SEP()",
+    PRE = ["GWF(self.tracegraph)", "RGWF(self.refgraph)", "HELD(self.tracegraph)", "OWN(self)", "SEP()",
            "all(c.data is not d.input_keys for c in every('CellsImpl') for d in every('CellsImpl'))",
            "self.tracegraph is not self.refgraph"]
     MOD = ["content(self.tracegraph)", "content(self.refgraph)", "every_content('dict[key,val]')", "every_content('set[key]')"]
@@ -505,7 +508,7 @@ def register8(R, P):
 
 
 def register9(R, P):
-    PRE = ["GWF(self.model.tracegraph)", "RGWF(self.model.refgraph)", "HELD(self.model.tracegraph)", "SEP()",
+    PRE = ["GWF(self.model.tracegraph)", "RGWF(self.model.refgraph)", "HELD(self.model.tracegraph)", "OWN(self.model)", "SEP()",
            "all(c.data is not d.input_keys for c in every('CellsImpl') for d in every('CellsImpl'))",
            "all(implies(k in self.input_keys, k in self.data) for k in every('key'))", "INPUT_BARE(self.model.tracegraph)",
            "all(implies(k in self.data, has_node(self.model.tracegraph, item(self, k))) for k in every('key'))"]
